@@ -200,6 +200,18 @@ def gen_cases(rng, tier):
             i = rng.randrange(len(base))
             yield {'t': t, 'data': base[:i] + bytes([rng.randrange(256)]) + base[i + 1:]}
             yield {'t': t, 'data': base[:rng.randrange(len(base) + 1)]}
+    # truncation at every offset (every 3rd beyond 96 bytes in the quick tier), and for the PackBits decoders a
+    # truncated stream that ends in a run / literal control byte whose operand is missing (seed C10_i)
+    for t, (fn, decl) in TARGETS.items():
+        base = B[t]
+        lim = min(len(base), 400 if thorough else 160)
+        for i in range(lim):
+            if thorough or i < 96 or i % 3 == 0:
+                yield {'t': t, 'data': base[:i]}
+        if t.startswith('bitd'):
+            for i in range(min(len(base), 64) + 1):
+                for ctl in ((0xfe, 0x03) if not thorough else (0xfe, 0x81, 0xff, 0x80, 0x03, 0x7f, 0x00)):
+                    yield {'t': t, 'data': base[:i] + bytes([ctl])}
     for t in ('mmap', 'key', 'cas', 'lctx', 'fmap', 'vwsc'):
         if t in B and t in TARGETS:
             for d in pair_settings(B[t], 16 if not thorough else 40):
